@@ -17,6 +17,7 @@
 
 struct KSI_OctetString_st { KSI_CTX *ctx; size_t ref; unsigned char *data; size_t data_len; };
 
+KSI_BlockSigner *g_bs_out;                            /* receives the result of KSI_BlockSigner_new */
 #define CB_MAX 4
 KSI_TreeBuilderLeafProcessor *g_cb_el[CB_MAX];
 size_t g_cb_n;
